@@ -14,6 +14,7 @@ import Driver.C08
 import Driver.C08mc
 import Driver.Wire
 import Driver.GvtNode
+import Driver.TW
 
 open Driver
 
@@ -41,6 +42,7 @@ def main (args : List String) : IO Unit :=
   | ["shutdown11"] => runLoop (RootSim.Shutdown.St.init 1) (shutdownStep { closeFix := true, zeroFix := true })
   | ["shutdownmc"] => runLoop () (fun st toks => (st, shutdownMc toks))
   | ["gvtnode"] => runLoop ({} : GNSt) gnStep
+  | ["tw"] => runLoop ({} : TWSt) twStep
   | ["wire"] => runLoop () (fun st toks => (st, wirecmd toks))
   | ["heap"] => runLoop ({} : HeapSt) heapStep
   | ["par"] => runLoop ({} : Driver.Run.Sys) Driver.Run.parStep
